@@ -47,7 +47,7 @@ void h_K01_cover(void) {
 '''
 
 HARNESS_CALLSITE = r'''
-bigint g_in_cs_value; size_t g_in_cs_sz; int g_in_cs_sign, g_in_cs_impossible, g_in_cs_bool, g_in_cs_dsign;
+bigint g_in_cs_value; size_t g_in_cs_sz; int g_in_cs_sign, g_in_cs_impossible, g_in_cs_bool, g_in_cs_dsign, g_in_cs_bits;
 void h_callsite(void) {
     struct VValue v; v.vtype = VV_INT; v.impossible = nondet_bool(); v.intvalue = nondet_bigint(); v.floatValue = 0.0;
     size_t sz = nondet_size_t(); enum Sign s = (enum Sign)nondet_int();
@@ -61,9 +61,16 @@ void h_callsite(void) {
     g_in_cs_dsign = g_default_sign;
     if (s == Sign_UNKNOWN_SIGN && !dst_is_bool) { if (g_default_sign == 's' || g_default_sign == 'S') s = Sign_SIGNED; else if (g_default_sign == 'u' || g_default_sign == 'U') s = Sign_UNSIGNED; else return; }
     g_in_cs_bool = dst_is_bool;
+    dst_bits = nondet_int(); __CPROVER_assume(dst_bits >= 0 && dst_bits < 64 && (dst_bits == 0 || (!dst_is_bool && (size_t)dst_bits <= 8 * sz)));
+    g_in_cs_bits = dst_bits;
     truncateValues_block(&v, sz, (enum Sign)g_in_cs_sign);
     __CPROVER_assert(v.vtype == VV_INT && v.impossible == g_in_cs_impossible, "kind and impossibility of the value are kept");
     if (dst_is_bool && !v.impossible) __CPROVER_assert(v.intvalue == (old != 0), "a value stored in a bool is 0 for 0 and 1 for everything else (C11 6.3.1.2)");
+    else if (!v.impossible && dst_bits > 0) {
+        biguint bm = (1ULL << dst_bits) - 1, bu = (biguint)old & bm;
+        bigint bw = (s == Sign_SIGNED && (bu >> (dst_bits - 1))) ? (bigint)(bu | ~bm) : (bigint)bu;
+        __CPROVER_assert(v.intvalue == bw, "a value stored in a bit-field of N bits is the value reduced to N bits (C11 6.3.1.3 for the bit-field's width)");
+    }
     else if (v.impossible || sz == 0 || sz == 8) __CPROVER_assert(v.intvalue == old, "impossible values and full-width / unknown-size destinations keep the value");
     else if (s == Sign_SIGNED) __CPROVER_assert(v.intvalue >= -(1LL << (8 * sz - 1)) && v.intvalue < (1LL << (8 * sz - 1)) && (((biguint)v.intvalue ^ (biguint)old) & ((1ULL << (8 * sz)) - 1)) == 0,
                                                 "a value stored in a signed destination of sz bytes is the C conversion of the assigned value (C11 6.3.1.3)");
@@ -71,7 +78,7 @@ void h_callsite(void) {
 }
 void h_callsite_cover(void) {
     struct VValue v; v.vtype = VV_INT; v.impossible = 0; v.intvalue = -1; v.floatValue = 0.0;
-    dst_is_bool = 0; dst_is_char = 0; g_default_sign = 's';
+    dst_is_bool = 0; dst_is_char = 0; g_default_sign = 's'; dst_bits = 0;
     truncateValues_block(&v, 4, Sign_UNSIGNED);
     __CPROVER_assert(!(v.intvalue == 4294967295LL), "COVER: -1 stored in a 4-byte unsigned destination becomes 4294967295");
 }
@@ -134,21 +141,24 @@ def build(ctx):
     tc, k = located_rules(reg, _common.VT_RULES + [
         (r'\bvalue\.isImpossible\(\)', 'v->impossible', 1, 1),
         (r'\bvalue\.isFloatValue\(\)', '(v->vtype == VV_FLOAT)', 1, 3),
-        (r'\bvalue\.isIntValue\(\)', '(v->vtype == VV_INT)', 1, 2),
+        (r'\bvalue\.isIntValue\(\)', '(v->vtype == VV_INT)', 1, 3),
         (r'\bvalue\.valueType\s*=\s*ValueFlow::Value::ValueType::INT\s*;', 'v->vtype = VV_INT;', 1, 2),
         (r'\bvalue\.(intvalue|floatValue)\b', r'v->\1', 3),
         (r'\bValueFlow::truncateIntValue\(', 'truncateIntValue(', 1, 1),
         (r'\bdst->sign\b', 'dst_sign', 0, 1),
-        (r'\b(?:ValueFlow::)?getConversionSign\(\*dst, settings\)', 'getConversionSign(dst_is_char ? VType_CHAR : VType_INT, dst_sign, g_default_sign)', 0, 1),
+        (r'\b(?:ValueFlow::)?getConversionSign\(\*dst, settings\)', 'getConversionSign(dst_is_char ? VType_CHAR : VType_INT, dst_sign, g_default_sign)', 0, 2),
         (r'\bdst->type == VType_BOOL && dst->pointer == 0\b', 'dst_is_bool', 0, 1),
-        (r'\bcontinue\s*;', 'return;', 1, 2),
+        (r'\bdst->pointer == 0 && dst->bits > 0 && dst->bits < MathLib::bigint_bits\b', 'dst_bits > 0 && dst_bits < 64', 0, 1),
+        (r'\bvalue = ValueFlow::castValue\(value, (getConversionSign\([^;]*\)), dst->bits\)\s*;', r'v->intvalue = castValue_int(v->intvalue, \1, dst_bits);', 0, 1),
+        (r'\bcontinue\s*;', 'return;', 1, 3),
     ], ID + ".truncateValues"); n += k
     if re.search(r'\bvalue\.|ValueFlow|dst->|settings', extract.mask(tc)):
         raise extract.ExtractError("K01c: per-value block not fully lowered: %r" % tc.strip()[:300])
     # the signedness used for the conversion (plain char: the platform's default)
     tcs_text, k = _common.conversion_sign(kb, ID); n += k
+    cvi_text, k = _common.cast_value_int(kb, ID); n += k
     kb.rules_fired = n
-    callsite = (tcs_text + "_Bool dst_is_char;   /* the destination is a char type */\n" +"enum VVType { VV_INT, VV_FLOAT, VV_OTHER };\nstruct VValue { enum VVType vtype; _Bool impossible; bigint intvalue; double floatValue; };\n"
+    callsite = (tcs_text + cvi_text + "_Bool dst_is_char;   /* the destination is a char type */\nint dst_bits;         /* width of a bit-field destination (ValueType::bits), 0 otherwise */\n" +"enum VVType { VV_INT, VV_FLOAT, VV_OTHER };\nstruct VValue { enum VVType vtype; _Bool impossible; bigint intvalue; double floatValue; };\n"
                 "_Bool dst_is_bool;   /* the destination is a (non-pointer) bool: dst->type == BOOL && dst->pointer == 0 */\nvoid truncateValues_block(struct VValue *v, const size_t sz, enum Sign dst_sign)\n{\n%s\n}\n" % extract.strip_comments(tc))
     extract.residue_scan(callsite, ID)
     kb.ctext = _common.BASE + enums + trunc_text + callsite + HARNESS + HARNESS_CALLSITE
